@@ -296,6 +296,7 @@ func (f *lnFacade) RebalancePayment(payreq string, channel string, maxTotalCLTVD
 		return "", fmt.Errorf("sim: invoice requires CLTV delta %d, maximum is %d", delta, maxTotalCLTVDelta)
 	}
 	// a new HTLC is created
+	advance := false
 	f.l.mu.Lock()
 	p.HTLCs++
 	nh := p.HTLCs
@@ -307,8 +308,11 @@ func (f *lnFacade) RebalancePayment(payreq string, channel string, maxTotalCLTVD
 		} else {
 			p.Status = "succeeded"
 		}
-	case "fail", "err":
+	case "fail", "err", "fail_adv":
 		p.Status = "failed"
+		if o == "fail_adv" {
+			advance = true
+		}
 		o = "fail"
 	case "err_pending":
 		p.Status = "inflight"
@@ -328,6 +332,16 @@ func (f *lnFacade) RebalancePayment(payreq string, channel string, maxTotalCLTVD
 	ev["delta"] = delta
 	ev["nhtlc"] = nh
 	f.w().Emit("ln.htlc", ev)
+	if advance { // while the attempt fails, a whole payment window of blocks arrives on the swap's chain
+		chain, win := "btc", uint32(504)
+		if c := f.w().Peer.ctx(inv.Swap); c != nil && c.Chain == "lbtc" {
+			chain, win = "lbtc", 60
+			if c.Version == 6 {
+				win = 30
+			}
+		}
+		f.w().Chain[chain].Blocks(win, nil)
+	}
 	f.w().after(f.n, "ln.payclaim")
 	if o == "" {
 		return pre, nil
